@@ -120,7 +120,22 @@ def check(chk):
     chk.judge(ok and 'next_index = len(self.values)' in src(au) and any(n.kind == 'raise_stmt' for n in ga.nodes), 'C30.unset', au,
               '_append_unset_value: raises for a routing-key index, appends otherwise (index = current length)', 'UNSET can be bound for a partition-key component')
     irk = q.func('PreparedStatement.is_routing_key_index')
-    chk.judge('set(self.routing_key_indexes)' in src(irk) and 'return i in self._routing_key_index_set' in src(irk), 'C30.unset', irk, 'routing-key index set built from routing_key_indexes', 'routing index membership changed')
+    # the membership set as a function of routing_key_indexes (None / empty / some): folded
+    from ..fold import Folder as _F30, Unfoldable as _U30
+    import copy as _copy30
+    sets_ = [st for st in body_walk(irk) if isinstance(st, ast.Assign) and src(st.targets[0]) == 'self._routing_key_index_set']
+    oks = len(sets_) == 1 and 'return i in self._routing_key_index_set' in src(irk)
+    if oks:
+        class _R(ast.NodeTransformer):
+            def visit_Attribute(s_, n_):
+                return ast.Name(id='_rki', ctx=ast.Load()) if src(n_) == 'self.routing_key_indexes' else n_
+        e_ = _R().visit(_copy30.deepcopy(sets_[0].value))
+        fo_ = _F30(q)
+        try:
+            oks = [fo_.eval(e_, env={'_rki': v_}) for v_ in (None, (), (2, 0))] == [set(), set(), set([0, 2])]
+        except (_U30, TypeError):
+            oks = False
+    chk.judge(oks, 'C30.unset', irk, 'routing-key index set built from routing_key_indexes (empty for None)', 'routing index membership changed')
 
     # routing key layout
     kp = q.func('Statement._key_parts_packed')
